@@ -351,6 +351,13 @@ static void history_generic(Rng &R, const char *which, bool wantDesc, CaseResult
                 if (u != v && I.w[u] == I.w[v]) { for (int q = 0; q < 2; q++) { int z = q ? v : u; double nd = I.d[z] + (q ? k : -k); I.d[z] = nd; vs[z]->desiredPosition = nd; ops.raw(JObj().str("op", "setDesired").i("v", z).num("d", nd).str("note", "mean-preserving spread").done()); D.i(z); D.d(nd); } }
                 continue;
             }
+            if (op == 1 && R.coin(0.25)) {  // change weights of a live solver's variables (what cola::GradientProjection does when it fixes / releases a node), possibly with a move
+                int k = (int)R.ri(1, 2);
+                for (int j = 0; j < k; j++) { int v = (int)R.ri(0, n - 1); static const double ws[] = {1, 1, 2, 10, 1000, 100000}; double nw = ws[R.ri(0, 5)]; I.w[v] = nw; vs[v]->weight = nw; ops.raw(JObj().str("op", "setWeight").i("v", v).num("w", nw).done()); D.i(100 + v); D.d(nw);
+                    if (R.coin(0.5)) { double nd = integer ? (double)R.ri(0, 15) : R.rd(0, 30); I.d[v] = nd; vs[v]->desiredPosition = nd; ops.raw(JObj().str("op", "setDesired").i("v", v).num("d", nd).done()); D.i(v); D.d(nd); } }
+                res.count("weight_changes_on_a_live_solver", k);
+                continue;
+            }
             if (op == 1) {  // move desired positions
                 int k = (int)R.ri(1, n);
                 for (int j = 0; j < k; j++) { int v = (int)R.ri(0, n - 1); double nd = integer ? (double)R.ri(0, 15) : R.rd(0, 30); I.d[v] = nd; vs[v]->desiredPosition = nd; ops.raw(JObj().str("op", "setDesired").i("v", v).num("d", nd).done()); D.i(v); D.d(nd); }
